@@ -140,6 +140,16 @@ def cases(ctx):
                                 f".scope cfg {{\n.if {cond} {{\nnop\n}} else {{\nentry:\nsize = 2\n}}\n.if {cond} {{\nentry:\nsize = 3\n}}\nrts\n}}\n.dl cfg.entry\n.db cfg.size\n"),
                         "twin_src": (f"*={org:#08x}\n.db {val}\n.db 0x11\n" + ("nop\n" if cond == "1" else "")
                                      + f"zz_e:\nrts\n.dl zz_e{' - 1' if False else ''}\n.db {3 if cond == '1' else 2}\n")})
+        # names of the surroundings that BEGIN with the name of a named scope (tile_base beside `.scope tile`): they are
+        # ordinary names, untouched by the scope's export (twin: those names renamed)
+        def prefixed(b, s, c):
+            return (f"*={org:#08x}\n{b} = 0x10\n{c} := 3\n{{\n{b} = 0x20\n{s}:\n.scope tile {{\nnop\nfirst:\nwidth = 4\n}}\n"
+                    f".db {b}, tile.width, {c}\n.dl {s}, tile.first\n}}\n{s}:\n.scope tile {{\nrts\nfirst:\nwidth = 5\n}}\n"
+                    f".db {b}, tile.width, {c}\n.dl {s}, tile.first\n")
+        out.append({"kind": "scope-name-prefix", "rom": rom, "spec": {"t": "twin", "labels": False},
+                    "src": prefixed("tile_base", "tiles", "tile_count"), "twin_src": prefixed("zz_pb", "zz_ps", "zz_pc")})
+        out.append({"kind": "scope-name-prefix", "rom": rom, "spec": {"t": "twin", "labels": False},
+                    "src": prefixed("tilebase", "tile2", "tile_"), "twin_src": prefixed("zz_pb", "zz_ps", "zz_pc")})
         # shadowing: the inner definition wins inside, the outer one outside
         out.append({"kind": "shadow", "rom": rom, "spec": {"t": "twin", "labels": False},
                     "src": f"*={org:#08x}\nx:\nnop\n{{\nnop\nx:\n.dl x\n}}\n.dl x\n",
@@ -226,7 +236,7 @@ def cases(ctx):
                 out.append({"kind": "export", "rom": rom, "src": src, "spec": {"t": "export", "name": "lab"}})
             out.append({"kind": "export-before", "rom": rom, "spec": {"t": "export", "name": "lab"},
                         "src": f"*={org:#08x}\n.dl sc.lab\n.scope sc {{\nnop\nlab:\nnop\n}}\n.dl sc.lab\n"})
-    return core.mark_must_assemble(out, {'label-in-if-in-block', 'symbol-from-counter', 'export-mixed', 'symbol-from-inner-label', 'assign-shadow', 'export', 'if-branch-no-scope', 'same-scope-name-in-siblings', 'scope-in-macro-twice', 'export-any', 'counter-vs-outer', 'sibling-reuse', 'export-before'})
+    return core.mark_must_assemble(out, {'label-in-if-in-block', 'symbol-from-counter', 'export-mixed', 'symbol-from-inner-label', 'assign-shadow', 'export', 'if-branch-no-scope', 'same-scope-name-in-siblings', 'scope-in-macro-twice', 'export-any', 'counter-vs-outer', 'sibling-reuse', 'export-before', 'scope-name-prefix'})
 
 
 def instantiate(gen_q):
